@@ -79,7 +79,7 @@ func (n *hRecvE01) Notify(ctx context.Context, as ...*alert.Alert) (bool, error)
 // tried again at the next group interval.
 //
 //vf:quick unwind=24 decisions=600 goroutines=16 preempt=0 sched=fifo timerfires=40 paths=400000 steps=20000000
-//vf:thorough unwind=24 decisions=900 goroutines=16 preempt=0 sched=fifo timerfires=60 paths=4000000 steps=60000000
+//vf:thorough unwind=24 decisions=1200 goroutines=64 preempt=0 sched=fifo timerfires=200 paths=4000000 steps=60000000
 //vf:expect reach=sent-on-first-flush reach=sent-after-silence reach=sent-after-rejection
 func VerifC01_EndToEnd() {
 	ctx, cancel := context.WithCancel(context.Background())
